@@ -427,3 +427,32 @@ pub fn poison(s: &mut Sess, byte: u8) {
     #[cfg(feature = "history")]
     s.cli.__verif_history_mut().__verif_poison(byte);
 }
+
+/// Fast path for enumerations: feed bytes, return handler calls, sink bytes and whether every call
+/// returned Ok and nothing panicked. The terminal emulator is *not* updated.
+pub fn feed<C: Autocomplete + Help>(n: &mut Sess, bytes: &[u8], mode: HMode) -> (Vec<HCall>, Vec<u8>, Result<(), String>) {
+    let mut log = vec![];
+    let mut status = Ok(());
+    for &b in bytes {
+        let res = {
+            let mut h = H { log: &mut log, mode };
+            let cli = &mut n.cli;
+            catch_unwind(AssertUnwindSafe(|| cli.process_byte::<C, _>(b, &mut h)))
+        };
+        match res {
+            Ok(Ok(())) => {}
+            Ok(Err(_)) => {
+                status = Err("sink error".to_string());
+            }
+            Err(_) => {
+                status = Err(format!(
+                    "panic: {}",
+                    LAST_PANIC.with(|p| p.borrow_mut().take()).unwrap_or_default()
+                ));
+                break;
+            }
+        }
+    }
+    let out = sink_bytes(&n.cli.__verif_writer_mut().take());
+    (log, out, status)
+}
